@@ -1,5 +1,8 @@
 use std::collections::hash_map::RandomState;
+#[cfg(not(prqlc_verif))]
 use std::collections::{HashMap, HashSet};
+#[cfg(prqlc_verif)]
+use prqlc_parser::verif_hash::{HashMap, HashSet};
 
 use itertools::Itertools;
 
